@@ -18,6 +18,11 @@ for l in log:
         pid, seed, verdicts = m.group(1), m.group(2), m.group(3).split()
         rows.append((pid, seed, verdicts, cur))
         cur = []
+# a seed tested more than once (re-test after a check was strengthened): the last result counts
+last = {}
+for r in rows:
+    last[(r[0], r[1])] = r
+rows = sorted(last.values(), key=lambda r: (r[0], int(r[1][1:])))
 out = [f"Seeded changes vs. the registered checks ({label}); /verif at {verif}, /repo at {repo}.",
        "Each line: property seed -> verdict per check run (DETECTED = exit 1 with a VIOLATION line).", ""]
 det = 0
